@@ -10,24 +10,240 @@ import (
 
 // ---- C11.L5 / C11.A3 -------------------------------------------------------------------------------------------------
 
-// runC11L5: every computed time.Sleep in the watcher loops of package cert has a lower bound of at least 1ms.
+// c11waitSinks: library calls that wait for (or tick with) the duration they are given, and where that duration is among
+// the arguments.
+var c11waitSinks = map[string]int{
+	"time.Sleep": 0, "time.After": 0, "time.NewTimer": 0, "time.NewTicker": 0, "time.Tick": 0, "time.AfterFunc": 0,
+	"(*time.Timer).Reset": 1, "(*time.Ticker).Reset": 1,
+}
+
+// c11waitDuration: the instruction waits for a duration (time.Sleep, <-time.After(d), a timer or ticker, also through a
+// function variable such as `var sleep = time.Sleep`) -> that duration.
+func c11waitDuration(in ssa.Instruction) (ssa.Value, bool) {
+	cc := callCommon(in)
+	if cc == nil {
+		return nil, false
+	}
+	if _, isGo := in.(*ssa.Go); isGo {
+		return nil, false
+	}
+	names := c11calleeNames(cc)
+	if len(names) == 0 {
+		return nil, false
+	}
+	idx := -1
+	for _, n := range names {
+		k, isSink := c11waitSinks[n]
+		if !isSink || (idx >= 0 && k != idx) {
+			return nil, false
+		}
+		idx = k
+	}
+	if idx < 0 || idx >= len(cc.Args) {
+		return nil, false
+	}
+	return cc.Args[idx], true
+}
+
+// c11durLowerBound is int64LowerBound (round3_shared.go) with the shapes a refactored clamp takes: a comparison with a
+// value that has a bound itself (`if d < min { return min }; return d`), the builtins max / min, the result of a clamping
+// helper, and a duration kept in a struct field or a package variable (a watcher or pacer type carrying its interval):
+// the bound of every value stored there, at the place of the store.
+func c11durLowerBound(v ssa.Value, facts []Fact, depth int) (int64, bool) {
+	if k, ok := constInt(v); ok {
+		return k, true
+	}
+	if depth > 6 {
+		return 0, false
+	}
+	// branch facts: v compared with a constant or with something bounded
+	best, have := int64(0), false
+	same := samePath(v)
+	for _, f := range facts {
+		b, ok := f.Cond.(*ssa.BinOp)
+		if !ok {
+			continue
+		}
+		x, y, op := b.X, b.Y, b.Op
+		if !(x == v || same(x)) {
+			if !(y == v || same(y)) {
+				continue
+			}
+			x, y = y, x // other op v  ->  v op' other
+			switch op {
+			case token.LSS:
+				op = token.GTR
+			case token.GTR:
+				op = token.LSS
+			case token.LEQ:
+				op = token.GEQ
+			case token.GEQ:
+				op = token.LEQ
+			}
+		}
+		if !f.Truth {
+			switch op {
+			case token.LSS:
+				op = token.GEQ
+			case token.LEQ:
+				op = token.GTR
+			case token.GTR:
+				op = token.LEQ
+			case token.GEQ:
+				op = token.LSS
+			case token.EQL:
+				op = token.NEQ
+			case token.NEQ:
+				op = token.EQL
+			}
+		}
+		if op != token.GEQ && op != token.GTR && op != token.EQL {
+			continue
+		}
+		if y == v || same(y) {
+			continue
+		}
+		k, isK := constInt(y)
+		if !isK {
+			if k, isK = c11durLowerBound(y, facts, depth+2); !isK {
+				continue
+			}
+		}
+		if op == token.GTR {
+			k++
+		}
+		if !have || k > best {
+			best, have = k, true
+		}
+	}
+	if have {
+		return best, true
+	}
+	minOf := func(n int, each func(k int) (int64, bool)) (int64, bool) {
+		lo := int64(0)
+		for k := 0; k < n; k++ {
+			l, ok := each(k)
+			if !ok {
+				return 0, false
+			}
+			if k == 0 || l < lo {
+				lo = l
+			}
+		}
+		return lo, n > 0
+	}
+	results := func(call *ssa.Call, idx int) (int64, bool) {
+		sc := call.Call.StaticCallee()
+		if sc == nil || !isRepoFn(sc) || len(sc.Blocks) == 0 {
+			return 0, false
+		}
+		var rets []*ssa.Return
+		eachInstr(sc, func(i ssa.Instruction) {
+			if r, ok := i.(*ssa.Return); ok && idx < len(r.Results) {
+				rets = append(rets, r)
+			}
+		})
+		return minOf(len(rets), func(k int) (int64, bool) {
+			return c11durLowerBound(rets[k].Results[idx], factsAt(rets[k].Block()), depth+1)
+		})
+	}
+	switch x := v.(type) {
+	case *ssa.Parameter:
+		fn := x.Parent()
+		if fn == nil {
+			return 0, false
+		}
+		sites := gSites[fn]
+		if len(sites) == 0 || len(sites) > maxHelperSites || !onlyStaticallyCalled(fn) {
+			return 0, false
+		}
+		for idx, q := range fn.Params {
+			if q != x {
+				continue
+			}
+			return minOf(len(sites), func(k int) (int64, bool) {
+				args := sites[k].Common().Args
+				if idx >= len(args) || sites[k].Block() == nil {
+					return 0, false
+				}
+				return c11durLowerBound(args[idx], factsAt(sites[k].Block()), depth+1)
+			})
+		}
+	case *ssa.Phi:
+		var edges []int
+		for k, e := range x.Edges {
+			if e != ssa.Value(x) {
+				edges = append(edges, k)
+			}
+		}
+		return minOf(len(edges), func(k int) (int64, bool) {
+			return c11durLowerBound(x.Edges[edges[k]], edgeFacts(x.Block().Preds[edges[k]], x.Block()), depth+1)
+		})
+	case *ssa.Convert:
+		return c11durLowerBound(x.X, facts, depth+1)
+	case *ssa.ChangeType:
+		return c11durLowerBound(x.X, facts, depth+1)
+	case *ssa.Extract:
+		if call, ok := x.Tuple.(*ssa.Call); ok {
+			return results(call, x.Index)
+		}
+	case *ssa.Call:
+		switch calleeName(&x.Call) {
+		case "builtin.max":
+			for _, a := range x.Call.Args {
+				if l, ok := c11durLowerBound(a, facts, depth+1); ok && (!have || l > best) {
+					best, have = l, true
+				}
+			}
+			return best, have
+		case "builtin.min":
+			return minOf(len(x.Call.Args), func(k int) (int64, bool) { return c11durLowerBound(x.Call.Args[k], facts, depth+1) })
+		}
+		return results(x, 0)
+	}
+	if sts, isLoad := c11storesInto(v); isLoad {
+		return minOf(len(sts), func(k int) (int64, bool) {
+			if sts[k].Block() == nil {
+				return 0, false
+			}
+			return c11durLowerBound(sts[k].Val, factsAt(sts[k].Block()), depth+1)
+		})
+	}
+	return 0, false
+}
+
+// runC11L5: every computed wait (time.Sleep, time.After, timer, ticker) in the watcher loops of package cert has a lower
+// bound of at least 1ms.
 func runC11L5(c *Ctx) {
+	c11useCtx(c)
 	n := 0
 	seen := map[ssa.Instruction]bool{}
 	for _, f := range c.fnsWhere("cert", func(fn *ssa.Function) bool { return len(condLessLoops(fn)) > 0 }) {
 		// the loop function and the helpers its iterations call (a step helper may do the sleeping)
-		for _, g := range c.region(f) {
+		reg := c.region(f) // static helpers only: the loaders a watcher is handed (Vault, Consul clients) have their own timing
+		// timers and tickers count only in the loops that deliver material (they send certificates or PEM blocks); a
+		// plain time.Sleep counts in every loop of the package, as before
+		delivers := false
+		eachInstrOf(reg, func(_ *ssa.Function, in ssa.Instruction) {
+			if snd, ok := in.(*ssa.Send); ok && (c11isCertSlice(snd.X.Type()) || typeStr(snd.X.Type()) == "map[string][]byte") {
+				delivers = true
+			}
+		})
+		for _, g := range reg {
 			eachInstr(g, func(in ssa.Instruction) {
-				cc := callCommon(in)
-				if cc == nil || calleeName(cc) != "time.Sleep" || len(cc.Args) != 1 || seen[in] {
+				d, isWait := c11waitDuration(in)
+				if !isWait || seen[in] {
 					return
 				}
-				if _, isK := cc.Args[0].(*ssa.Const); isK {
+				if cc := callCommon(in); !delivers && !c11callsOnly(cc, map[string]bool{"time.Sleep": true}) {
+					return
+				}
+				if _, isK := d.(*ssa.Const); isK {
 					return
 				}
 				seen[in] = true
 				n++
-				lb, ok := int64LowerBound(cc.Args[0], factsAt(in.Block()), 0)
+				lb, ok := c11durLowerBound(d, factsAt(in.Block()), 0)
 				c.check("C11.L5", fnKey(g)+"|retry sleep has a positive lower bound", in.Pos(), ok && lb >= 1000000,
 					"the duration slept before the next load attempt has no proven lower bound of at least 1ms on every path that defines it (a clamp such as 'if refresh < time.Second { refresh = time.Second }' must cover every mode, also refresh <= 0 = load once): with a zero duration a source that keeps delivering unusable material is retried in a busy loop")
 			})
@@ -38,7 +254,15 @@ func runC11L5(c *Ctx) {
 
 // runC11A3: nothing writes into the set that is currently published (its backing arrays are in use by handshakes).
 func runC11A3(c *Ctx) {
+	c11useCtx(c)
+	var gm *c11Model // a mutex-guarded holder: reading the guarded field is the load
+	if c11lastModel != nil && c11lastModel.c == c && len(c11lastModel.guarded) > 0 {
+		gm = c11lastModel
+	}
 	isHolderLoad := func(v ssa.Value) bool {
+		if u, isLoad := v.(*ssa.UnOp); isLoad && gm != nil {
+			return gm.isSetLoad(u)
+		}
 		call, ok := v.(*ssa.Call)
 		if !ok {
 			return false
